@@ -328,7 +328,11 @@ void varintDimensionPairEntrySetBit(void *_dst, const size_t row,
     uint8_t offsetBit;
     _bitOffsets(dst, row, col, dimension, offsetByte, offsetBit);
 
-    dst[offsetByte] |= setBit << offsetBit;
+    if (setBit) {
+        dst[offsetByte] |= (uint8_t)(1U << offsetBit);
+    } else {
+        dst[offsetByte] &= (uint8_t)~(1U << offsetBit);
+    }
 }
 
 bool varintDimensionPairEntryToggleBit(void *_dst, const size_t row,
